@@ -2,7 +2,7 @@
 canonical digest.
 
 A *job* is plain JSON: {"model": name, "params": {...}, "seed": int, "wall": null|"offset"|"fast"|"frozen",
-"numpy_seed": true|false, "seed_mode": "derived"|"same"}.
+"numpy_seed": true|false, "seed_mode": "derived"|"same", "reuse_specs": true|false}.
 `execute(job)` does what a user would do in one interpreter:
 
     random.seed(seed); numpy.random.seed(seed)      # the user's seeds
@@ -176,11 +176,26 @@ def _peek_event_counter() -> int:
 # execute
 # ---------------------------------------------------------------------------
 
+_SPECS: dict = {}      # per interpreter: spec bundles of the jobs that asked for reuse
+
+
+def _spec_store(job: dict) -> dict:
+    """The spec bundle a user would keep around: objects that depend on model + structure are shared with every later build
+    of that structure in this interpreter (also a sibling's), objects that also depend on the seeds only with later builds of
+    the same job."""
+    import json
+
+    skey = (job["model"], json.dumps(job.get("params") or {}, sort_keys=True))
+    key = skey + (job["seed"], job.get("seed_mode", "derived"))
+    return {"shared": _SPECS.setdefault(("shared",) + skey, {}), "seeded": _SPECS.setdefault(("seeded",) + key, {})}
+
+
 def execute(job: dict, full: bool = False) -> dict:
     import simkit.c03_zoo as zoo
     from simkit.c03_zoo import ZOO
 
     zoo.SEED_MODE = job.get("seed_mode", "derived")
+    zoo.SPEC_STORE = _spec_store(job) if job.get("reuse_specs") else None
     entry = ZOO[job["model"]]
     seed = int(job["seed"])
     log: list = []
